@@ -688,6 +688,14 @@ pub fn encode_with_fixed_block_size<T: Source>(
         stream.add_frame(frame);
     }
 
+    // `add_frame` lowers `min_block_size` when the final block is short, but the
+    // last block is excluded from the minimum (and values below 16 are invalid):
+    // a fixed-blocksize stream has min = max = `block_size`.
+    stream
+        .stream_info_mut()
+        .set_block_sizes(block_size, block_size)
+        .unwrap();
+
     let (_, context) = framebuf_and_context;
     stream
         .stream_info_mut()
